@@ -25,6 +25,7 @@ import sys
 import types
 from itertools import zip_longest
 import itertools
+import keyword
 import collections
 from functools import partial
 import typing
@@ -1002,6 +1003,11 @@ def _mask(sig, num_args, hide_args, hide_kwargs,
     posargs, pokargs, varargs, kwoargs, varkwargs, src \
         = sort_params(sig, sources=True, _stacklevel=_stacklevel + 1)
 
+    if num_args < 0:
+        raise ValueError(
+            'Signature cannot be passed {0} arguments: {1}'
+            .format(num_args, sig))
+
     pokargs_by_name = dict((p.name, p) for p in pokargs)
     consumed_names = set()
 
@@ -1078,7 +1084,11 @@ def _mask(sig, num_args, hide_args, hide_kwargs,
         # (partial(f, args=1) for f(*args, **kwargs)) cannot be shown as a
         # parameter of its own; **kwargs takes it
         stars = [p.name for p in (varargs, varkwargs) if p is not None]
-        if kwarg_name not in stars:
+        if (
+                kwarg_name not in stars
+                and kwarg_name.isidentifier()
+                and not keyword.iskeyword(kwarg_name)
+            ):
             kwoargs[kwarg_name] = UpgradedParameter(
                 kwarg_name, _util.funcsigs.Parameter.KEYWORD_ONLY,
                 default=named_args[kwarg_name])
